@@ -572,7 +572,11 @@ class Qcow2Suite(Suite):
         out["has_backing"] = bool(q.has_backing_file)
         out["unknown_ext"] = len(q.unknown_extensions)
         dead = False
-        for kind, a, b, _shape in case["reqs"]:
+        for k, (kind, a, b, _shape) in enumerate(case["reqs"]):
+            if k % 2 == 1:
+                for fo in (fh, data, backing):           # the handles are the caller's: they may have been used meanwhile
+                    if fo is not None:
+                        fo.seek((a * 7 + k * 4099) % max(1, fo.size))
             if dead:
                 out["reqs"].append({"outcome": "skipped"})
                 continue
